@@ -212,7 +212,8 @@ Inductive txnres :=
 | TNone (id : N).
 
 (* One constructor per case of the Filter.Filter type switch, carrying what the branch reads
-   and writes; [f] is QueryMeta.ResultsFilteredByACLs as it is on entry / exit. *)
+   and writes; [f] is QueryMeta.ResultsFilteredByACLs as it is on entry / exit (every branch
+   assigns it: what is there on entry is never read). *)
 Inductive response :=
 | RCheckServiceNodes (l : list csn)
 | RIndexedCheckServiceNodes (l : list csn) (f : bool)
@@ -454,6 +455,10 @@ Section Filter.
   Definition keep_gwsvc (g : gwsvc) : bool := service_read az local (gs_service g).
   Definition filter_gateway_services (l : list gwsvc) := range_filter keep_gwsvc l.
 
+  (* filterGatewayServicesByGateway (Internal.ServiceDump has authorized no gateway name) *)
+  Definition keep_gw_gateway (g : gwsvc) : bool := allow_service local (gs_gateway g).
+  Definition filter_gateways_by_gateway (l : list gwsvc) := range_filter keep_gw_gateway l.
+
   (* agent/consul/filter.go *)
   Definition dirent_filtered (d : dirent) : bool := negb (key_read az (de_key d)).
   Definition filter_dir_ent (l : list dirent) : list dirent := filter_slice dirent_filtered l.
@@ -468,7 +473,7 @@ Section Filter.
     end.
   Definition filter_txn_results (l : list txnres) : list txnres := filter_slice txn_filtered l.
 
-  (* "if f.filterX(...) { v.ResultsFilteredByACLs = true }" *)
+  (* "if f.filterX(...) { v.ResultsFilteredByACLs = true }" after an assignment earlier in the same branch *)
   Definition sticky (old r : bool) : bool := if r then true else old.
 
   (* Filter.Filter: the type switch *)
@@ -477,18 +482,18 @@ Section Filter.
     | RCheckServiceNodes l => RCheckServiceNodes (fst (filter_csns l))
     | RIndexedCheckServiceNodes l _ => let '(l', r) := filter_csns l in RIndexedCheckServiceNodes l' r
     | RPreparedQueryExecuteResponse l _ => let '(l', r) := filter_csns l in RPreparedQueryExecuteResponse l' r
-    | RIndexedServiceTopology up down fa f =>
+    | RIndexedServiceTopology up down _ _ =>
         let '((up', down'), r) := filter_topology up down in
-        RIndexedServiceTopology up' down' (sticky fa r) (sticky f r)
+        RIndexedServiceTopology up' down' r r
     | RDatacenterIndexedCheckServiceNodes m _ =>
         let '(m', r) := filter_dc_nodes m in RDatacenterIndexedCheckServiceNodes m' r
     | RIndexedCoordinates l _ => let '(l', r) := filter_coordinates l in RIndexedCoordinates l' r
     | RIndexedHealthChecks l _ => let '(l', r) := filter_health_checks l in RIndexedHealthChecks l' r
     | RIndexedIntentions l _ => let '(l', r) := filter_intentions l in RIndexedIntentions l' r
     | RIntentionQueryMatch e => RIntentionQueryMatch (filter_intention_match e)
-    | RIndexedNodeDump imported dump f =>
+    | RIndexedNodeDump imported dump _ =>
         let '(dump', r1) := filter_node_dump dump in
-        let f1 := sticky f r1 in
+        let f1 := r1 in
         let '(imported', r2) := filter_node_dump imported in
         RIndexedNodeDump imported' dump' (sticky f1 r2)
     | RIndexedServiceDump l _ => let '(l', r) := filter_service_dump l in RIndexedServiceDump l' r
@@ -514,16 +519,18 @@ Section Filter.
     | RACLAuthMethods l => RACLAuthMethods (filter_aclobjs l)
     | RACLAuthMethod p => RACLAuthMethod (filter_aclobj p)
     | RIndexedServiceList l _ => let '(l', r) := filter_service_list l in RIndexedServiceList l' r
-    | RIndexedExportedServiceList m f =>
-        let '(m', f') := exported_loop m m f in RIndexedExportedServiceList m' f'
+    | RIndexedExportedServiceList m _ =>
+        let '(m', f') := exported_loop m m false in RIndexedExportedServiceList m' f'
     | RIndexedGatewayServices l _ => let '(l', r) := filter_gateway_services l in RIndexedGatewayServices l' r
-    | RIndexedNodesWithGateways imported nodes gws f =>
+    | RIndexedNodesWithGateways imported nodes gws _ =>
         let '(nodes', r1) := filter_csns nodes in
-        let f1 := sticky f r1 in
-        let '(gws', r2) := filter_gateway_services gws in
+        let f1 := r1 in
+        let '(gws1, r2) := filter_gateway_services gws in
         let f2 := sticky f1 r2 in
+        let '(gws', r2') := filter_gateways_by_gateway gws1 in
+        let f2' := sticky f2 r2' in
         let '(imported', r3) := filter_csns imported in
-        RIndexedNodesWithGateways imported' nodes' gws' (sticky f2 r3)
+        RIndexedNodesWithGateways imported' nodes' gws' (sticky f2' r3)
     | RDirEntries l => RDirEntries (filter_dir_ent l)
     | RTxnResults l => RTxnResults (filter_txn_results l)
     end.
